@@ -22,7 +22,7 @@ let err_name e = match e with
   | EEof -> "EOF" | EInjected -> "INJECTED" | EUnexpEof -> "UNEXPECTED_EOF" | EBadDigest -> "BAD_DIGEST"
   | ETrailing -> "TRAILING" | EMismatch -> "MISMATCH" | EEarly -> "EARLY" | EInvalidSize -> "INVALID_SIZE"
   | EExists -> "EXISTS" | ETooBig -> "TOO_BIG" | ENotFound -> "NOT_FOUND" | EDupName -> "DUP_NAME"
-  | EFuel -> "FUEL" | EWrite -> "WRITE" | EShortWrite -> "SHORT_WRITE" | ETraversal -> "TRAVERSAL"
+  | EOverwrite -> "OVERWRITE" | EFuel -> "FUEL" | EWrite -> "WRITE" | EShortWrite -> "SHORT_WRITE" | ETraversal -> "TRAVERSAL"
 let res_name e = match e with None -> "OK" | Some e -> err_name e
 
 let parse_script (s : string) : ev list =
@@ -114,6 +114,8 @@ let () =
           pushes (i - 1) rest' step
         | _ -> failwith "bad ST case" in
       let listing l = match List.sort compare l with [] -> "-" | l -> String.concat ";" l in
+      let nolist = (kind = "memstore") in
+      let kind = if kind = "memstore" then "mem" else if kind = "ocistore" then "oci" else kind in
       (if kind = "mem" || (String.length kind > 3 && String.sub kind 0 3 = "lim") then begin
         let st = ref [] in
         pushes n rest (fun _ d comb evs ->
@@ -124,7 +126,7 @@ let () =
           st := st';
           let c = mem_get !st d in
           Printf.sprintf "%s X%d F%s" (res_name e) (if c = None then 0 else 1) (show_fetch (mem_fetch_all h !st d)));
-        Buffer.add_string buf ("B=" ^ listing (List.map (fun (d, c) ->
+        Buffer.add_string buf (if nolist then "B=?" else "B=" ^ listing (List.map (fun (d, c) ->
           Printf.sprintf "%s/%s/%d/%s" (hex_of_str d.d_mt) (hex_of_str d.d_dg) (int_of_z d.d_sz) (digest_str c)) !st));
         Buffer.add_string buf (sweep (fun _ d -> let c = mem_get !st d in
           Printf.sprintf "X%d/F%s" (if c = None then 0 else 1) (show_fetch (mem_fetch_all h !st d))))
@@ -147,7 +149,13 @@ let () =
           let xs = match xe with Some e -> err_name e | None -> if x then "1" else "0" in
           let f = show_fetch (oci_fetch_all h !st d) in
           Printf.sprintf "X%s/F%s" xs f))
-      end else if kind = "file" then begin
+      end else if String.length kind >= 4 && String.sub kind 0 4 = "file" then begin
+        (* file | fileD (DisableOverwrite) | fileI (IgnoreNoName) | fileF (unlimited fallback) | fileC (ForceCAS) *)
+        let opts = match kind with
+          | "fileD" -> { default_opts with o_disable_overwrite = true }
+          | "fileI" -> { default_opts with o_ignore_noname = true }
+          | "fileF" -> { default_opts with o_fb_limit = None }
+          | _ -> default_opts in
         let st = ref { f_files = []; f_names = []; f_d2p = []; f_fb = [] } in
         pushes n rest (fun name d comb evs ->
           let (name, path) = !cur_name_path in
@@ -157,7 +165,7 @@ let () =
             | Some p when name <> [] && p <> path ->
               Printf.sprintf " CLEAN-MISMATCH(model=%s,filepath=%s)" (hex_of_str p) (hex_of_str path)
             | _ -> "" in
-          let (e, st') = file_push_name h comb fixed (fuel_of evs) !st name d evs in
+          let (e, st') = file_push_opt h comb fixed opts (fuel_of evs) !st name d evs in
           st := st';
           let x = file_exists !st name d in
           let f = show_fetch (file_fetch_all h !st name d) in
